@@ -497,7 +497,7 @@ class Ctl(enum.Enum):
     XORI = 255
 
 
-ENUM_COQ = 'Some [' + '; '.join('(%s, %d)' % (sl(m.name), m.value) for m in Ctl) + ']'
+ENUM_COQ = '[(%s, [' % sl('Ctl') + '; '.join('(%s, %d)' % (sl(m.name), m.value) for m in Ctl) + '])]'
 
 
 def spec_to_str(v, ty, w):
@@ -785,13 +785,12 @@ def check_bitpatterns(ctx, F):
 
 
 def run(ctx):
+    import time
     F = Fails(ctx)
-    check_int(ctx, F)
-    check_bool(ctx, F)
-    check_verilog(ctx, F)
-    check_signed_and_twos(ctx, F)
-    check_formats(ctx, F)
-    check_bitpatterns(ctx, F)
+    for part in (check_int, check_bool, check_verilog, check_signed_and_twos, check_formats, check_bitpatterns):
+        t0 = time.time()
+        part(ctx, F)
+        ctx.count('wall_s_by_part', part.__name__, round(time.time() - t0, 1))
     F.flush()
 
 
